@@ -286,8 +286,8 @@ PROPS['C07'] = dict(
 PROPS['C18']['spec_is_model'] = ['c18']
 
 PROPS['C11'] = dict(
-    lean_targets=['AnonModel.Props.C11', 'AnonModel.Props.C11W3C'],
-    required_theorems=['C11_w3c_issue_ok_iff', 'C11_w3c_issue_boolean_refused', 'C11_w3c_process_ok_iff', 'C11_w3c_process_boolean_rejected', 'C11_w3c_honest_roundtrip',
+    lean_targets=['AnonModel.Props.C11', 'AnonModel.Props.C11W3C', 'AnonModel.Props.C11Doc'],
+    required_theorems=['C11_w3c_process_stored', 'C11_w3c_process_stored_refused', 'C11_w3c_issue_ok_iff', 'C11_w3c_issue_boolean_refused', 'C11_w3c_process_ok_iff', 'C11_w3c_process_boolean_rejected', 'C11_w3c_honest_roundtrip',
                        'C11_w3c_tamper_rejected_other_holder', 'C11_issue_ok_iff', 'C11_issue_replayed_request_refused', 'C11_issue_foreign_request_refused', 'C11_issue_wrong_attributes_refused',
                        'C11_issue_case_variants_accepted', 'C11_request_ok_iff', 'C11_process_ok_iff', 'C11_honest_roundtrip', 'C11_tamper_rejected_changed_value',
                        'C11_tamper_rejected_other_holder', 'C11_processed_is_presentable'],
@@ -313,13 +313,14 @@ PROPS['C14'] = dict(
                                    "which JSON objects deserialise as an AnonCreds data-integrity proof is decided by serde-derived code: Model/ProofDoc takes the classification as given (Scalar.anon / Scalar.other) and the correspondence checks it on real proofs and nine near misses"],
 )
 PROPS['C15'] = dict(
-    lean_targets=['AnonModel.Props.C15', 'AnonModel.Props.C15Req', 'AnonModel.Props.C15Bn'],
-    required_theorems=['C15_bn_binary_hop', 'C15_bn_binary_hop_partial', 'C15_bn_binary_full_claim_refuted', 'C15_req_de_ser', 'C15_req_ser_de', 'C15_req_ser_de_any', 'C15_req_empty_interval_kept', 'C15_req_restrictions_kept', 'C15_req_missing_vs_null', 'C15_req_ver',
+    lean_targets=['AnonModel.Props.C15', 'AnonModel.Props.C15Req', 'AnonModel.Props.C15Bn', 'AnonModel.Props.C15B64', 'AnonModel.Props.C15Pv'],
+    required_theorems=['C15_pv_de_ser', 'C15_pv_ser_de', 'C15_pv_extra_refused', 'C15_pv_kind_mismatch_refused', 'C15_b64_decode_encode', 'C15_b64_encode_decode', 'C15_b64_decode_injective', 'C15_b64_rejects_foreign_symbol', 'C15_b64_length', 'C15_envelope_decode_encode', 'C15_envelope_encode_decode', 'C15_envelope_header_required', 'C15_bn_binary_hop', 'C15_bn_binary_hop_partial', 'C15_bn_binary_full_claim_refuted', 'C15_req_de_ser', 'C15_req_ser_de', 'C15_req_ser_de_any', 'C15_req_empty_interval_kept', 'C15_req_restrictions_kept', 'C15_req_missing_vs_null', 'C15_req_ver',
                        'C15_nonce_ser_de', 'C15_nonce_string_kept', 'C15_nonce_rejects', 'C15_revlist_de_ser', 'C15_revlist_ser_de', 'C15_ver_roundtrip',
                        'C15_missing_ver_is_v1', 'C15_attrval_de_ser', 'C15_attrval_ser_de', 'C15_attrval_rejects'],
     families=[dict(name='c15')], default_dir='exact', spec_is_model=['c15'],
-    fam_theorem={'c15': 'C15_nonce_* / C15_revlist_* / C15_ver_* / C15_attrval_* / C15_req_* (hand-written codecs = model; reqDe / reqSer is the whole presentation-request codec)'},
-    rule="revealed encodings of five value pairs (negative, zero, boundaries, byte-boundary magnitudes) read from a W3C presentation before and after a hop against the model of the binary big-number codec (op bn_hop: the magnitude survives, the sign does not — F22; legacy control verifies); the whole PresentationRequest codec (op codec_req: de then ser, as documents) on 1,200 (quick) / 20,000 (thorough) documents assembled from member pools holding every boundary form (intervals {} / one bound / both / null / array form / wrong types / out of u64; restrictions in every operator and degenerate form incl. legacy lists with null tags; names / p_type / p_value / nonce / ver forms; missing, null and unknown members; array-form structs), about half of them valid; typed-equality hops (PresentationRequest, W3CCredential, W3CPresentation: PartialEq; status lists, offers, requests, metadata, registry definitions, revocation states: printed form) and status lists with timestamps absent / 0 / 1 / u64::MAX. Hand-written codecs compared exactly with the model on ~2000 JSON inputs each way (Nonce from strings with leading zeros / numbers / byte arrays incl. truncation and trailing junk / wrong types; revocation list bits incl. other numbers, floats, booleans; request version present / absent / unknown / mistyped; untagged attribute value over the i32 boundaries, floats, big integers, null, arrays). Hop stream (oracle, all 17 object types): every complete flow (legacy / W3C x plain / revocable) is run twice from the same PRNG state, once directly and once with a serialise->deserialise hop at every hand-over point (schema, definition and its private and correctness parts, offer, request and metadata, credential before and after processing, registry definition and private part, status list, revocation state, nonce, presentation request, presentation): outcomes must agree; ser(de(ser x)) = ser x as canonical documents (JSON values, msgpack envelopes decoded); every cast object and 24 random honest presentations hopped and re-verified",
-    trusted_base=TRUSTED_COMMON + ["serde derive, serde_json, rmp-serde, base64 and the CL crate's (de)serialisers are external code outside the model (the property is partial in that sense): exercised by the hop stream only"],
-    not_exhibited_by_model=["derive-generated and CL-crate codecs, the msgpack/base64 envelope: hop stream (test) only"],
+    fam_theorem={'c15': 'C15_nonce_* / C15_revlist_* / C15_ver_* / C15_attrval_* / C15_req_* (hand-written codecs = model; reqDe / reqSer is the whole presentation-request codec)',
+                 'c15.b64': 'C15_b64_decode_encode / C15_b64_encode_decode (base64url without padding: lossless, one accepted text per byte string), C15_envelope_* (multibase header), C15_pv_de_ser / C15_pv_ser_de (tagged proof value: only the written form is read)'},
+    rule="the base64url layer of every proof value (ops b64_encode / b64_decode through the guarded hooks, Model/Base64): byte strings of every length 0..48 (3 / 12 each), constant runs, 30 / 300 longer ones; texts: every string of length <= 2 over the 64 symbols plus 18 intruders (= + / space . newline tab , : ; @ [ ` { NUL DEL and two non-ASCII characters), the last symbol of valid texts replaced by each of the 64 symbols (unused low bits), padding appended, an intruder inserted, one symbol more / less, proof values of real credentials: ~14,000 (quick) texts compared exactly with the model, plus the two oracles on the real code (read back what was written; an accepted text is the text written for its bytes); the tagged proof value (op codec_pv, Model/WirePv: the hand-written visitor of DataIntegrityProofValue): ~440 (quick) msgpack sequences assembled from the real payloads of the three kinds, 12 tags (-2..5, 127, 128, i32 bounds) in narrow and wide integer formats, 9 other values (nil, string, true, 64-bit integers, float, empty map / array, u32 beyond i32), with extra elements, wrong order, missing members and a mostly-valid random stream: the kind accepted; the multibase layer (op pv_decode): real proof objects with the proofValue text respelled so that the bytes stay the same whenever the text is acceptable (header missing / other, padding or white space appended, every setting of the unused low bits of the last symbol); revealed encodings of five value pairs (negative, zero, boundaries, byte-boundary magnitudes) read from a W3C presentation before and after a hop against the model of the binary big-number codec (op bn_hop: the magnitude survives, the sign does not — F22; legacy control verifies); the whole PresentationRequest codec (op codec_req: de then ser, as documents) on 1,200 (quick) / 20,000 (thorough) documents assembled from member pools holding every boundary form (intervals {} / one bound / both / null / array form / wrong types / out of u64; restrictions in every operator and degenerate form incl. legacy lists with null tags; names / p_type / p_value / nonce / ver forms; missing, null and unknown members; array-form structs), about half of them valid; typed-equality hops (PresentationRequest, W3CCredential, W3CPresentation: PartialEq; status lists, offers, requests, metadata, registry definitions, revocation states: printed form) and status lists with timestamps absent / 0 / 1 / u64::MAX. Hand-written codecs compared exactly with the model on ~2000 JSON inputs each way (Nonce from strings with leading zeros / numbers / byte arrays incl. truncation and trailing junk / wrong types; revocation list bits incl. other numbers, floats, booleans; request version present / absent / unknown / mistyped; untagged attribute value over the i32 boundaries, floats, big integers, null, arrays). Hop stream (oracle, all 17 object types): every complete flow (legacy / W3C x plain / revocable) is run twice from the same PRNG state, once directly and once with a serialise->deserialise hop at every hand-over point (schema, definition and its private and correctness parts, offer, request and metadata, credential before and after processing, registry definition and private part, status list, revocation state, nonce, presentation request, presentation): outcomes must agree; ser(de(ser x)) = ser x as canonical documents (JSON values, msgpack envelopes decoded); every cast object and 24 random honest presentations hopped and re-verified",
+    trusted_base=TRUSTED_COMMON + ["serde derive, serde_json, rmp-serde and the CL crate's (de)serialisers are external code outside the model (the property is partial in that sense): exercised by the hop stream only; the base64 crate's URL_SAFE_NO_PAD engine is modelled (Model/Base64) and compared with it through the guarded hooks base64_encode / base64_decode"],
+    not_exhibited_by_model=["derive-generated and CL-crate codecs, the msgpack layer of the proof-value envelope: hop stream (test) only"],
 )
